@@ -299,6 +299,36 @@ func checkKV(sc *Scenario, rs *runState, out *explorer.Outcome) []cviol {
 	}
 	if held := rs.mgr.CurrentDB.VerifLocksHeld(); len(held) > 0 {
 		add("lock-leak", sc.ID, "", fmt.Sprintf("scenario %s: locks held at quiescence: %v", sc.ID, held))
+	} else if !sc.Timed {
+		// "the keyspace bookkeeping stays exact (KEYS and EXISTS agree with the data)": at quiescence
+		// KEYS * and EXISTS of every key of the scenario, asked through the command interface, must
+		// agree with the data (whatever a race left behind in a cache or a counter shows up here)
+		var inData []string
+		for _, k := range implC {
+			inData = append(inData, k.Key)
+		}
+		sort.Strings(inData)
+		if v, err := model.DecodeOne(h.Exec(context.Background(), rs.mgr, nil, h.B("KEYS", "*")...)); err == nil && v.K == model.Array {
+			var listed []string
+			for _, e := range v.Arr {
+				listed = append(listed, string(e.S))
+			}
+			sort.Strings(listed)
+			if strings.Join(listed, "\x00") != strings.Join(inData, "\x00") {
+				add("bookkeeping", sc.ID, "", fmt.Sprintf("scenario %s: at quiescence KEYS * lists %q but the data holds %q; history: %s", sc.ID, listed, inData, histString(rs.ops)))
+			}
+		}
+		for _, k := range scenarioKeys(sc) {
+			want := int64(0)
+			for _, d := range inData {
+				if d == k {
+					want = 1
+				}
+			}
+			if v, err := model.DecodeOne(h.Exec(context.Background(), rs.mgr, nil, h.B("EXISTS", k)...)); err == nil && v.K == model.Int && v.I != want {
+				add("bookkeeping", sc.ID, "", fmt.Sprintf("scenario %s: at quiescence EXISTS %q = %d but the data says %d; history: %s", sc.ID, k, v.I, want, histString(rs.ops)))
+			}
+		}
 	}
 	var ops []lin.Op
 	for _, o := range rs.ops {
